@@ -9,5 +9,5 @@ CONSTANTS WBase = 32768
   ByteAlphabet <- AlphaBytes
   MaxBytes = 4
   GenMode = FALSE
-INVARIANTS InvSlices InvDelims InvPort InvQuery InvRoundTrip InvShape InvConcat InvParamStricter InvDecText
+INVARIANTS InvSlices InvDelims InvPort InvQuery InvRoundTrip InvShape InvConcat InvParamStricter InvDecText InvScanner
 CHECK_DEADLOCK FALSE
